@@ -7,6 +7,8 @@ import Driver.C02
 import Driver.C03
 import Driver.C07
 import Driver.C06
+import Driver.C04
+import Driver.C04Oracle
 open Ws.Driver
 
 def dispatch (op : String) (args : List String) (obs : String) : String × String :=
@@ -28,6 +30,9 @@ def dispatch (op : String) (args : List String) (obs : String) : String × Strin
   | "u8" => c07u8 args obs
   | "wr" => c06wr args obs
   | "wm" => c06wm args obs
+  | "rm" => (c04rm args obs, rmOracle args obs)
+  | "rdd" => (c04rdd args obs, rddOracle args obs)
+  | "rdr" => (c04rdr args obs, rdrOracle args obs)
   | _ => ("UNKNOWN-OP", "skip")
 
 def handleLine (line : String) : String :=
